@@ -188,3 +188,16 @@ func TestInvariantsAgainstBruteForce(t *testing.T) {
 		}
 	}
 }
+
+func TestChromaticNumberFast(t *testing.T) {
+	for n := 0; n <= 7; n++ {
+		for _, g := range IsoClasses(n) {
+			if a, b := ChromaticNumberFast(g), ChromaticNumber(g); a != b {
+				t.Fatalf("%v: fast %d dp %d", g.Key(), a, b)
+			}
+		}
+	}
+	if ChromaticNumberFast(ivPetersen()) != 3 {
+		t.Fatal("petersen")
+	}
+}
